@@ -224,6 +224,7 @@ TRANSPARENT_CALLS = (
     'core::option::Option::as_deref', 'core::option::Option::as_deref_mut',
     'core::convert::Into::into', 'core::convert::From::from',
     'core::result::Result::map_err',
+    'ruint::from::<impl ruint::Uint>::from',      # U256::from(integer): value preserving
 )
 TRY_BRANCH = 'core::ops::try_trait::Try::branch'
 
